@@ -12,4 +12,10 @@ def run(ctx):
         ("random-drops-2x1", ["-random", n(300, 2000), "-nodes", "2", "-numconns", "1", "-clients", "2", "-workers", "4", "-round", "150", "-droprate", "0.7"], False),
         ("random-calm-4x1", ["-random", n(300, 2000), "-nodes", "4", "-numconns", "1", "-clients", "4", "-workers", "8", "-round", "300", "-delay", "5", "-okbias", "2"], False),
     ]
-    rf.run_property(ctx, "C01", plans, scenario_filter=lambda s: "drop" in s["outcomes"] or len(s["outcomes"]) >= 2, nscen=400)
+    # gated replay of the hazard schedules TLC finds on Request.tla (see harness/cmd/vdrv/gates.go)
+    plans += [
+        ("gated-d8", ["-scenario", "d8"], "gates", "gated-closing-cycle"),
+        ("gated-d7", ["-scenario", "d7"], "gates", "gated-retry-same-no-conn"),
+        ("gated-d11", ["-scenario", "d11"], "gates", "gated-reprepare-send-fails"),
+    ]
+    rf.run_property(ctx, "C01", plans, scenario_filter=lambda s: "drop" in s["outcomes"] or len(s["outcomes"]) >= 2, nscen=400, design=True)
